@@ -1440,6 +1440,9 @@ def run(ctx):
     search_to_helpers(ctx)
     search_channels(ctx)
     search_networks(ctx)
+    from props import C17_networks
+
+    C17_networks.run_suites(ctx)
     ctx.notes.append("exact Gaussian-integer correspondence of the Lean index model with vectorization/unvectorization (3 orders, d in {2,3,4,8}), _reshuffling, kraus_to_choi/liouville/chi (ordered non-adjacent targets, ranks 1..d^2), Channel.to_choi/to_liouville, comp_basis_to_pauli (24 orderings), liouville_to_pauli/pauli_to_liouville/choi_to_chi/chi_to_choi, kraus_to_stinespring/stinespring_to_kraus; normalize=True variants = 2^(-n/2)-scaled un-normalised matrices, exact B†B = 2^n·1, exact 4^n round trips and kraus_to_chi = choi_to_chi∘kraus_to_choi on Gaussian integers, flag-pair round-trip factors (C17_corr_normalize, ties Props/C17c); numeric search (1e-8) of all 30 a_to_b functions x orders x Pauli orderings x normalisations against an independent SPEC, round trips, path independence, spectral branches, Stinespring, to_* helpers, gates.Channel.to_*, quantum networks")
     ctx.assumptions.append("spectral steps (eigh, svd, qr) are library contracts; their use is checked numerically (1e-7) by reconstructing the Choi matrix from the returned operators")
     ctx.assumptions.append("kraus_to_unitaries (numerical optimisation) is outside the property check")
